@@ -416,7 +416,9 @@ package util
 
 //@ impl func WriteIntToFile
 //@   props C05 C03 C09
-//@   ensures[C05.impl.once] fileWrites == old(fileWrites) + 1
-//@   ensures[C05.impl.what] lastWriteText == itoa(value) && (lastWritePath == path || (path in resolveOK && lastWritePath == resolvedPath[path]))
-//@   ensures[C05.impl.err] result == nil ==> fileContent[lastWritePath] == itoa(value)
+//@   let target = path in resolveOK && len(resolvedPath[path]) > 0 ? resolvedPath[path] : path
+// one write of the decimal text to the path (or its resolution) - or none at all if the file already holds that number
+//@   ensures[C05.impl.once] fileWrites == old(fileWrites) + 1 || (fileWrites == old(fileWrites) && result == nil && trimsp(fileContent[target]) == itoa(value))
+//@   ensures[C05.impl.what] fileWrites != old(fileWrites) ==> lastWriteText == itoa(value) && lastWritePath == target
+//@   ensures[C05.impl.err] result == nil ==> trimsp(fileContent[target]) == itoa(value)
 //@   modifies fileContent, fileWrites, lastWritePath, lastWriteText
